@@ -1,12 +1,195 @@
 import PbBss.Proofs.BfProof
-/-! # C11 — MVDR / LCMV / Wiener constraints and optimality (work in progress: spike theorems) -/
-open PbBss PbBss.Bf Matrix
+/-! # C11 — MVDR, LCMV and Wiener beamformers satisfy their constraints and optimality
+
+Statements only (helper lemmas: `PbBss/Proofs/BfProof.lean`, spikes `Proofs/Mvdr.lean`).  Models:
+`PbBss/Model/Bf.lean` at `α := ℝ`, `β := ℂ`, tied to `pb_bss/extraction/beamformer.py` by the correspondence run of
+`harness/props/c11.py`.  The linear solver is an external: it enters through its contract `A x = b`
+(`np.linalg.solve` / `stable_solve` on an invertible matrix).  `Matrix.of f` reads a model table `f` as a matrix. -/
+open PbBss PbBss.Bf PbBss.BfProof Matrix
 open scoped ComplexOrder
 namespace PbBss.C11
-variable {D : Nat}
+variable {D K F n : Nat}
 
-theorem mvdr_distortionless_core (Φ : Matrix (Fin D) (Fin D) ℂ) (hΦ : Φ.IsHermitian) (a u : Fin D → ℂ)
-    (hu : Φ *ᵥ u = a) (hq : star a ⬝ᵥ u ≠ 0) :
-    star ((star a ⬝ᵥ u)⁻¹ • u) ⬝ᵥ a = 1 := _root_.mvdr_distortionless Φ hΦ a u hu hq
+/-! ### MVDR -/
+/-- `get_mvdr_vector` is distortionless: `wᴴ a = 1` for every steering vector `a ≠ 0` and positive definite noise
+PSD, where `u` is what the solver returned for the symmetrised matrix (`0.5 (Φ + Φᴴ)`) -/
+theorem mvdr_distortionless (Φ : Matrix (Fin D) (Fin D) ℂ) (hΦ : Φ.PosDef) (a u : Fin D → ℂ) (ha : a ≠ 0)
+    (hu : Matrix.of (hermSym ℝ Φ) *ᵥ u = a) :
+    star (mvdrFromSolve ℝ a u) ⬝ᵥ a = 1 := by
+  rw [hermSym_of_isHermitian Φ hΦ.1] at hu
+  rw [mvdrFromSolve_eq]
+  exact _root_.mvdr_distortionless Φ hΦ.1 a u hu (den_ne_zero Φ a u hΦ ha hu)
+
+/-- … and no distortionless vector has a smaller noise output power `vᴴ Φ v` -/
+theorem mvdr_optimal (Φ : Matrix (Fin D) (Fin D) ℂ) (hΦ : Φ.PosDef) (a u : Fin D → ℂ) (ha : a ≠ 0)
+    (hu : Matrix.of (hermSym ℝ Φ) *ᵥ u = a) (v : Fin D → ℂ) (hv : star v ⬝ᵥ a = 1) :
+    (star (mvdrFromSolve ℝ a u) ⬝ᵥ Φ *ᵥ mvdrFromSolve ℝ a u).re ≤ (star v ⬝ᵥ Φ *ᵥ v).re := by
+  rw [hermSym_of_isHermitian Φ hΦ.1] at hu
+  rw [mvdrFromSolve_eq]
+  exact _root_.mvdr_optimal Φ hΦ.posSemidef a u v hu (den_ne_zero Φ a u hΦ ha hu) hv
+
+/-- the whole per-bin function, for any solver meeting the contract `A (solve A b) = b` on invertible `A` -/
+theorem getMvdrVector_spec (solve : Matrix (Fin D) (Fin D) ℂ → (Fin D → ℂ) → Fin D → ℂ)
+    (hsolve : ∀ (A : Matrix (Fin D) (Fin D) ℂ) b, IsUnit A → A *ᵥ solve A b = b)
+    (Φ : Matrix (Fin D) (Fin D) ℂ) (hΦ : Φ.PosDef) (a : Fin D → ℂ) (ha : a ≠ 0) :
+    star (getMvdrVector ℝ solve a Φ) ⬝ᵥ a = 1 ∧
+    ∀ v : Fin D → ℂ, star v ⬝ᵥ a = 1 →
+      (star (getMvdrVector ℝ solve a Φ) ⬝ᵥ Φ *ᵥ getMvdrVector ℝ solve a Φ).re ≤ (star v ⬝ᵥ Φ *ᵥ v).re := by
+  have hu : Matrix.of (hermSym ℝ Φ) *ᵥ solve (hermSym ℝ Φ) a = a := by
+    apply hsolve
+    rw [hermSym_of_isHermitian Φ hΦ.1]; exact hΦ.isUnit
+  exact ⟨mvdr_distortionless Φ hΦ a _ ha hu, fun v hv => mvdr_optimal Φ hΦ a _ ha hu v hv⟩
+
+/-- stacks of bins and sources: every `(source, bin)` entry of the stacked result is distortionless for its own
+steering vector and optimal for its bin's noise PSD -/
+theorem mvdrStack_spec {K F : Nat} (solve : Matrix (Fin D) (Fin D) ℂ → (Fin D → ℂ) → Fin D → ℂ)
+    (hsolve : ∀ (A : Matrix (Fin D) (Fin D) ℂ) b, IsUnit A → A *ᵥ solve A b = b)
+    (atf : Fin K → Fin F → Fin D → ℂ) (noise : Fin F → Matrix (Fin D) (Fin D) ℂ)
+    (hΦ : ∀ f, (noise f).PosDef) (ha : ∀ k f, atf k f ≠ 0) (k : Fin K) (f : Fin F) :
+    star (mvdrStack ℝ solve atf noise k f) ⬝ᵥ atf k f = 1 ∧
+    ∀ v : Fin D → ℂ, star v ⬝ᵥ atf k f = 1 →
+      (star (mvdrStack ℝ solve atf noise k f) ⬝ᵥ noise f *ᵥ mvdrStack ℝ solve atf noise k f).re ≤
+        (star v ⬝ᵥ noise f *ᵥ v).re :=
+  getMvdrVector_spec solve hsolve (noise f) (hΦ f) (atf k f) (ha k f)
+
+/-! ### LCMV -/
+/-- every linear constraint is met: `wᴴ a_j = conj r_j` (`= r_j` for the real response vectors of the documented use)
+as soon as `t` solves the Gram system `(Aᴴ U) t = r` -/
+theorem lcmv_constraints (A U : Fin K → Fin D → ℂ) (r t : Fin K → ℂ)
+    (ht : Matrix.of (lcmvGram ℝ A U) *ᵥ t = r) (j : Fin K) :
+    star (lcmvCombine U t) ⬝ᵥ A j = star (r j) := BfProof.lcmv_constraints A U r t ht j
+
+/-- the Gram matrix `Aᴴ Φ⁻¹ A` is positive definite (so the second solve is well posed) when the steering vectors are
+linearly independent and `Φ` is positive definite -/
+theorem lcmv_gram_posDef (Φ : Matrix (Fin D) (Fin D) ℂ) (hΦ : Φ.PosDef) (A U : Fin K → Fin D → ℂ)
+    (hU : ∀ k, Φ *ᵥ U k = A k) (hA : LinearIndependent ℂ A) :
+    (Matrix.of (lcmvGram ℝ A U)).PosDef := BfProof.lcmv_gram_posDef Φ hΦ A U hU hA
+
+/-- `get_lcmv_vector` (one bin) with solvers meeting the contract: all constraints hold -/
+theorem getLcmvVector_spec (solveD : Matrix (Fin D) (Fin D) ℂ → (Fin D → ℂ) → Fin D → ℂ)
+    (solveK : Matrix (Fin K) (Fin K) ℂ → (Fin K → ℂ) → Fin K → ℂ)
+    (hD : ∀ (M : Matrix (Fin D) (Fin D) ℂ) b, IsUnit M → M *ᵥ solveD M b = b)
+    (hK : ∀ (M : Matrix (Fin K) (Fin K) ℂ) b, IsUnit M → M *ᵥ solveK M b = b)
+    (Φ : Matrix (Fin D) (Fin D) ℂ) (hΦ : Φ.PosDef) (A : Fin K → Fin D → ℂ) (hA : LinearIndependent ℂ A)
+    (r : Fin K → ℂ) (j : Fin K) :
+    star (getLcmvVector ℝ solveD solveK A r Φ) ⬝ᵥ A j = star (r j) ∧
+    ((r j).im = 0 → star (getLcmvVector ℝ solveD solveK A r Φ) ⬝ᵥ A j = r j) := by
+  have hU : ∀ k, Φ *ᵥ solveD Φ (A k) = A k := fun k => hD Φ (A k) hΦ.isUnit
+  have hG := BfProof.lcmv_gram_posDef Φ hΦ A (fun k => solveD Φ (A k)) hU hA
+  have ht := hK (Matrix.of (lcmvGram ℝ A fun k => solveD Φ (A k))) r hG.isUnit
+  have h := BfProof.lcmv_constraints A (fun k => solveD Φ (A k)) r _ ht j
+  refine ⟨h, fun hr => ?_⟩
+  rw [show getLcmvVector ℝ solveD solveK A r Φ = lcmvCombine (fun k => solveD Φ (A k))
+    (solveK (Matrix.of (lcmvGram ℝ A fun k => solveD Φ (A k))) r) from rfl, h]
+  apply Complex.ext <;> simp [hr]
+
+/-! ### Souden MVDR and the weighted multichannel Wiener filter;  `phi` = solver result for `Φnn phi = Φxx` -/
+/-- rank-one target `σ a aᴴ`: Souden's MVDR is the MVDR vector scaled by `conj a_ref`
+(guard `eps ≤ tr(Φnn⁻¹Φxx) = σ aᴴΦnn⁻¹a`: the `np.maximum(·, eps)` floor is inactive) -/
+theorem souden_rank_one (N : Matrix (Fin D) (Fin D) ℂ) (hN : N.PosDef) (a u : Fin D → ℂ) (ha : a ≠ 0)
+    (σ : ℝ) (hσ : 0 < σ) (phi : Matrix (Fin D) (Fin D) ℂ)
+    (hphi : N * phi = (σ : ℂ) • vecMulVec a (star a)) (hu : N *ᵥ u = a) (ref : Fin D) (eps : ℝ)
+    (heps : eps ≤ σ * (star a ⬝ᵥ u).re) :
+    souden phi ref eps = star (a ref) • mvdrFromSolve ℝ a u :=
+  BfProof.souden_rank_one N hN a u ha σ hσ phi hphi hu ref eps heps
+
+/-- … hence it reproduces the target at the reference channel: `wᴴ a = a_ref` -/
+theorem souden_reproduces_reference (N : Matrix (Fin D) (Fin D) ℂ) (hN : N.PosDef) (a u : Fin D → ℂ) (ha : a ≠ 0)
+    (σ : ℝ) (hσ : 0 < σ) (phi : Matrix (Fin D) (Fin D) ℂ)
+    (hphi : N * phi = (σ : ℂ) • vecMulVec a (star a)) (hu : N *ᵥ u = a) (ref : Fin D) (eps : ℝ)
+    (heps : eps ≤ σ * (star a ⬝ᵥ u).re) :
+    star (souden phi ref eps) ⬝ᵥ a = a ref := by
+  rw [BfProof.souden_rank_one N hN a u ha σ hσ phi hphi hu ref eps heps, star_smul, smul_dotProduct, star_star,
+    mvdrFromSolve_eq, _root_.mvdr_distortionless N hN.1 a u hu (den_ne_zero N a u hN ha hu)]
+  simp
+
+/-- rank-one target, `μ > 0`: the WMWF vector is the exact minimiser `(Φxx + μ Φnn)⁻¹ Φxx e_ref` -/
+theorem wmwf_exact (N : Matrix (Fin D) (Fin D) ℂ) (hN : N.PosDef) (a u : Fin D → ℂ) (ha : a ≠ 0)
+    (σ : ℝ) (hσ : 0 < σ) (μ : ℝ) (hμ : 0 < μ) (phi : Matrix (Fin D) (Fin D) ℂ)
+    (hphi : N * phi = (σ : ℂ) • vecMulVec a (star a)) (hu : N *ᵥ u = a) (ref : Fin D) :
+    wmwf μ phi ref = fun d =>
+      (((σ : ℂ) • vecMulVec a (star a) + (μ : ℂ) • N)⁻¹ * ((σ : ℂ) • vecMulVec a (star a))) d ref :=
+  BfProof.wmwf_exact N hN a u ha σ hσ μ hμ phi hphi hu ref
+
+/-- `μ = 0`: WMWF equals Souden's MVDR, for every Hermitian target (the trace `tr(Φnn⁻¹Φxx)` is then real;
+guard: it is not below the floor `eps`) -/
+theorem wmwf_zero_eq_souden (N X phi : Matrix (Fin D) (Fin D) ℂ) (hN : N.PosDef) (hX : X.IsHermitian)
+    (hphi : N * phi = X) (ref : Fin D) (eps : ℝ) (heps : eps ≤ (Matrix.trace phi).re) :
+    wmwf (0 : ℝ) phi ref = souden phi ref eps := by
+  apply wmwf_zero_eq_souden_of_real phi ref eps (trace_solve_im N X phi hN.1 hN.isUnit hX hphi)
+  rwa [trace_eq]
+
+/-- Souden's MVDR is invariant to a positive scaling of the target PSD and of the noise PSD
+(`phiX`, `phiN` are the solver results for the scaled problems; guards: the floor `eps` stays inactive) -/
+theorem souden_scale (N X phi phiX phiN : Matrix (Fin D) (Fin D) ℂ) (hN : N.PosDef) (c : ℝ) (hc : 0 < c)
+    (hphi : N * phi = X) (hphiX : N * phiX = (c : ℂ) • X) (hphiN : ((c : ℂ) • N) * phiN = X)
+    (ref : Fin D) (eps : ℝ) (hpos : 0 < (Matrix.trace phi).re) (h1 : eps ≤ (Matrix.trace phi).re)
+    (h2 : eps ≤ c * (Matrix.trace phi).re) (h3 : eps ≤ c⁻¹ * (Matrix.trace phi).re) :
+    souden phiX ref eps = souden phi ref eps ∧ souden phiN ref eps = souden phi ref eps := by
+  rw [← trace_eq] at hpos h1 h2 h3
+  have hX : phiX = (c : ℂ) • phi := by
+    apply mul_left_cancel_of_isUnit hN.isUnit
+    rw [hphiX, Matrix.mul_smul, hphi]
+  have hc' : (c : ℂ) ≠ 0 := by exact_mod_cast hc.ne'
+  have hNs : phiN = ((c⁻¹ : ℝ) : ℂ) • phi := by
+    apply mul_left_cancel_of_isUnit hN.isUnit
+    have : (c : ℂ) • (N * phiN) = X := by rw [← Matrix.smul_mul]; exact hphiN
+    rw [Matrix.mul_smul, hphi, ← this, smul_smul]
+    push_cast
+    rw [inv_mul_cancel₀ hc', one_smul]
+  exact ⟨hX ▸ souden_smul phi ref eps c hc h1 h2 hpos,
+    hNs ▸ souden_smul phi ref eps c⁻¹ (inv_pos.mpr hc) h1 h3 hpos⟩
+
+/-- WMWF is invariant to a joint positive scaling of both PSDs -/
+theorem wmwf_joint_scale (N X phi phi' : Matrix (Fin D) (Fin D) ℂ) (hN : N.PosDef) (c : ℝ) (hc : 0 < c)
+    (hphi : N * phi = X) (hphi' : ((c : ℂ) • N) * phi' = (c : ℂ) • X) (μ : ℝ) (ref : Fin D) :
+    wmwf μ phi' ref = wmwf μ phi ref := by
+  have hc' : (c : ℂ) ≠ 0 := by exact_mod_cast hc.ne'
+  have : phi' = phi := by
+    apply mul_left_cancel_of_isUnit hN.isUnit
+    have h : (c : ℂ) • (N * phi') = (c : ℂ) • X := by rw [← Matrix.smul_mul]; exact hphi'
+    rw [hphi]
+    exact smul_right_injective _ hc' h
+  rw [this]
+
+/-! ### reference channel -/
+/-- `get_optimal_reference_channel` returns the first arg-max of the library's own SNR criterion -/
+theorem ref_channel_argmax (wmat X N : Fin F → Fin (n+1) → Fin (n+1) → ℂ) (eps : ℝ) :
+    (∀ R, refSnr wmat X N eps R ≤ refSnr wmat X N eps (refChannel wmat X N eps)) ∧
+    (∀ R, R < refChannel wmat X N eps → refSnr wmat X N eps R < refSnr wmat X N eps (refChannel wmat X N eps)) :=
+  ⟨fun R => vargmax_ge _ R, fun R hR => vargmax_first _ R hR⟩
+
+/-- `get_mvdr_vector_souden(ref_channel=None)`: one channel for all bins, the beamformer is that channel's column,
+and the channel is the first maximiser of the criterion evaluated on the candidate filters
+`mat = phi / max(tr phi, eps)` -/
+theorem soudenAuto_spec (phi X N : Fin F → Fin (n+1) → Fin (n+1) → ℂ) (eps : ℝ) :
+    (∀ f, (soudenAuto phi X N eps).2 f = souden (phi f) (soudenAuto phi X N eps).1 eps) ∧
+    (∀ R, refSnr (fun f => soudenMat (phi f) eps) X N eps R ≤
+      refSnr (fun f => soudenMat (phi f) eps) X N eps (soudenAuto phi X N eps).1) ∧
+    (∀ R, R < (soudenAuto phi X N eps).1 → refSnr (fun f => soudenMat (phi f) eps) X N eps R <
+      refSnr (fun f => soudenMat (phi f) eps) X N eps (soudenAuto phi X N eps).1) :=
+  ⟨fun _ => rfl, fun R => vargmax_ge _ R, fun R hR => vargmax_first _ R hR⟩
+
+/-- `get_wmwf_vector(reference_channel=None)` likewise -/
+theorem wmwfAuto_spec (μ : ℝ) (phi X N : Fin F → Fin (n+1) → Fin (n+1) → ℂ) (tiny : ℝ) :
+    (∀ f, (wmwfAuto μ phi X N tiny).2 f = wmwf μ (phi f) (wmwfAuto μ phi X N tiny).1) ∧
+    (∀ R, refSnr (fun f => wmwfFilter μ (phi f)) X N tiny R ≤
+      refSnr (fun f => wmwfFilter μ (phi f)) X N tiny (wmwfAuto μ phi X N tiny).1) ∧
+    (∀ R, R < (wmwfAuto μ phi X N tiny).1 → refSnr (fun f => wmwfFilter μ (phi f)) X N tiny R <
+      refSnr (fun f => wmwfFilter μ (phi f)) X N tiny (wmwfAuto μ phi X N tiny).1) :=
+  ⟨fun _ => rfl, fun R => vargmax_ge _ R, fun R hR => vargmax_first _ R hR⟩
+
+/-! ### non-vacuity: the hypotheses are met by concrete data -/
+example : star (mvdrFromSolve ℝ (fun _ : Fin 2 => (1 : ℂ)) (fun _ => 1)) ⬝ᵥ (fun _ : Fin 2 => (1 : ℂ)) = 1 := by
+  refine mvdr_distortionless (1 : Matrix (Fin 2) (Fin 2) ℂ) Matrix.PosDef.one _ _ ?_ ?_
+  · intro h; simpa using congrFun h 0
+  · rw [hermSym_of_isHermitian _ Matrix.isHermitian_one, one_mulVec]
+
+example : LinearIndependent ℂ (fun _ : Fin 1 => fun _ : Fin 2 => (1 : ℂ)) := by
+  rw [Fintype.linearIndependent_iff]
+  intro g hg i
+  have := congrFun hg 0
+  simp at this
+  rw [Subsingleton.elim i 0]; exact this
 
 end PbBss.C11
